@@ -106,6 +106,27 @@ Proof.
   - exact exs_p1_nz.
 Qed.
 
+(* the main loop alone, from the shifted work matrix *)
+
+Definition exs_au0 : matrix AFlx := @mkM AFlx [1; 3; 0; 2; 1; 0] 2 3.
+
+Lemma exs_loop :
+  for_ 0 2 (dec_step (A := AFlx) false 2 3) (exs_au0, @mat_new AFlx 2 1 0, repeat 0%nat 2, 1, 1%nat)
+  = Ok (exs_au, exs_al, exs_index, - (1), 2%nat).
+Proof. unfold exs_au0, exs_au, exs_al, exs_index. repeat exs_step. reflexivity. Qed.
+
+Lemma exs_wf : wfB exs_B.
+Proof. unfold wfB, wfM, exs_B. cbn. repeat split. Qed.
+
+Lemma exs_hz : forall z : AFlx, eqb z zero = true -> z = zero.
+Proof. exact (Req_zero_eqb xadd xsub xmul xdiv). Qed.
+
+Lemma exs_hist_small : forall r, (r < 2)%nat -> INR (length (fhist (A := AFlx) 2 1 exs_al exs_index 2 r)) * ux < 1.
+Proof. intros [|[|r]] Hr; try lia; cbn; pose proof ux_small; lra. Qed.
+
+Lemma exs_size3 : INR 3 * ux < 1.
+Proof. cbn [INR]. pose proof ux_small. lra. Qed.
+
 (* ---------------------------------------------------------------- exact rationals: how long a history can get *)
 Local Close Scope R_scope.
 Local Open Scope nat_scope.
